@@ -439,6 +439,7 @@ def run(tier):
     rule_R9(res, prog)
     rule_R10(res, prog)
     rule_R11(res, prog)
+    rule_R12(res, prog)
     res.floor("C19.R1", 150)
     res.floor("C19.R2", 3)
     res.floor("C19.R3", 30)
@@ -1458,4 +1459,45 @@ def rule_R11(res, prog):
                          "everything it holds" % (fn.relfile, esc[-1][1], fn.name, [p_[1] for p_ in esc[-5:-1]], " / ".join(rel), param),
                          file=fn.relfile, line=esc[-1][1])
         res.instance(rid, "%s: every NULL return releases `%s`" % (fn.name, param), esc is None, finding=f_)
+    res.floor(rid, 1)
+
+
+def rule_R12(res, prog):
+    """'nothing leaked once the application deletes its objects': on the CLIENT ssl->sid is the application's object (it is
+    handed in at session creation and freed by the application); matrixSslDeleteSession releases ssl->sid for servers only.
+    So no client-side code may allocate into ssl->sid: every store of an allocation result to the field `sid` of the session
+    lies in a function / under a branch fact that establishes the server role."""
+    from sa import cfgutil as cu
+    rid = "C19.R12"
+    res.rule(rid, "ssl->sid is allocated by the library only on the server side (the client's is the application's object)")
+    ALLOC = ("malloc", "calloc", "realloc")
+    SRV = prog.const("SSL_FLAGS_SERVER")
+    n = 0
+    for fn in sorted(prog.functions.values(), key=lambda f: f.qname):
+        if not fn.blocks or not fn.relfile.startswith("matrixssl/") or "/test/" in fn.relfile:
+            continue
+        gf = None
+        for b in fn.blocks:
+            for i, ln, x in cu.block_exprs(b):
+                for m in walk(x):
+                    if not (m.get("k") == "bin" and m["op"] == "=" and (strip(m["l"]) or {}).get("k") == "mem" and strip(m["l"]).get("f") == "sid"):
+                        continue
+                    r = strip(m["r"])
+                    while r is not None and r.get("k") == "cast":
+                        r = strip(r["e"])
+                    if r is None or r.get("k") != "call" or r.get("fn") not in ALLOC:
+                        continue
+                    n += 1
+                    gf = gf or cu.guard_facts(fn)
+                    facts = gf.get(b["id"], ())
+                    server_fn = fn.name in ("ClientHelloExt", "parseClientHelloExtensions", "parseClientHello") or "ClientHello" in fn.name and "Write" not in fn.name
+                    ok = server_fn or any(tx == "(ssl->flags & %d)" % SRV and tr for (tx, tr) in facts)
+                    f_ = None
+                    if not ok:
+                        f_ = Finding(PROP, rid, fn.name, "session id object allocated on the client side",
+                                     "%s:%s %s(): ssl->sid = %s(..) outside the server role: on a client ssl->sid is the application's object and "
+                                     "matrixSslDeleteSession does not free it, so a block allocated here (and what is hung below it) stays "
+                                     "allocated after the application deleted everything it holds" % (fn.relfile, ln, fn.name, r["fn"]),
+                                     file=fn.relfile, line=ln)
+                    res.instance(rid, "%s:%s ssl->sid allocated on the server side" % (fn.name, ln), ok, finding=f_)
     res.floor(rid, 1)
